@@ -302,9 +302,15 @@ def ansDeser (w : Wire) : String :=
 def ansSerFrom (text : Bytes) : String :=
   let w := wireOfJson text
   let r := ansDeser w
+  let p := match w with
+    | .str v => (match LangId.fromBytes v with
+      | .ok x => s!"ok {renderLi x}"
+      | .err _ => "err"
+      | .panic => "panic")
+    | _ => "nostr"
   match w with
-  | .invalid => s!"{r} | badjson"
-  | _ => s!"{r} | {r}"
+  | .invalid => s!"{r} | badjson | {p}"
+  | _ => s!"{r} | {r} | {p}"
 
 def ansSerTo (v : Bytes) : String :=
   match LangId.fromBytes v with
@@ -624,7 +630,7 @@ def answer (line : String) : String :=
             s!"ok {renderLoc l};ideq=1;aref=1;pre={preEq}"
           | .err e => errCode e
           | .panic => "panic"
-        s!"{lis} | {locs}"
+        withSpec s!"{lis} | {locs}" (specLoc v)
       | none => "bad"
     | "liparts" => match arg 0 with
       | some v =>
